@@ -80,9 +80,16 @@ Definition srep_eqb (a b : srep) : bool :=
 
 Record sstep := SStep { q_op : qop; q_res : option Z; q_abs : list Z; q_panic : bool }.
 
-Definition zero_id : Z := -1.          (* the number the harness gives to a Go zero value (never an element) *)
-Definition cbZ_enqueue := cb_enqueue zero_id (fun v => v =? zero_id).
-Definition cbZ_fresh := cb_fresh zero_id.
+(* the number of the Go zero value (what an empty ring slot holds): its place in the universe when it is an element,
+   -1 (the harness's number for a zero value that is not an element) otherwise *)
+Definition zero_of (ec : codec) : Z :=
+  match index_of jeqb (JNum 0) (cj ec) 0, index_of jeqb (JStr []) (cj ec) 0 with
+  | Some i, _ => i
+  | None, Some i => i
+  | None, None => -1
+  end.
+(* Dequeue as repaired by 0021: no zero-value test *)
+Definition no_zero (v : Z) : bool := false.
 
 (* what the model of UnmarshalJSON makes of the observed document, into a fresh container *)
 Definition seq_model_restore (p : path) (d : disc) (jrev : bool) (ec : codec) (j : jval) : option (list Z * srep) :=
@@ -99,8 +106,8 @@ Definition seq_model_restore (p : path) (d : disc) (jrev : bool) (ec : codec) (j
       | PLinked => match ll_unmarshal (dec_of ec) j [] with Some r => Some (r, RNone) | None => None end
       | PRing =>
           let mx := match d with DRing c => c | _ => 1%nat end in
-          match cb_unmarshal (dec_of ec) zero_id (fun v => v =? zero_id) j (cbZ_fresh mx) with
-          | Some q => Some (cb_values zero_id q,
+          match cb_unmarshal (dec_of ec) (zero_of ec) no_zero j (cb_fresh (zero_of ec) mx) with
+          | Some q => Some (cb_values (zero_of ec) q,
                             RRing (cb_vals q) (cb_start q) (cb_end q) (cb_full q) (cb_size q) (cb_max q))
           | None => None
           end
@@ -244,11 +251,11 @@ Definition check_case (c : case) : nat :=
   match c with
   | CSeq p d jrev ec src jo dst rep dirty suffix =>
       let m_ok := negb (jo_merr jo) && jo_valid jo && wellformed (jo_val jo) in
-      let u_ok := negb (jo_uerr jo) && abs_eqb d dst src && jo_twice jo in
+      let u_ok := negb (jo_uerr jo) && abs_eqb d dst (restored_ref d src) && jo_twice jo in
       let model := seq_model_ok p d jrev ec src (jo_val jo) dst rep dirty in
       if negb m_ok then 2%nat
       else if negb u_ok then (1 * 4 + 2)%nat
-      else match first_bad (0 :: 0 :: seq_suffix d src suffix)%nat with
+      else match first_bad (0 :: 0 :: seq_suffix d (restored_ref d src) suffix)%nat with
            | O => if model then 0%nat else (1 * 4 + 1)%nat
            | n => n
            end
